@@ -28,7 +28,16 @@ host.solve calls IN ANY ORDER on a real Al-Zr PrecipitateModel (real StrengthMod
 GrainGrowthModel host; attached = added and not cleared BY THE USER (host.reset() does not detach: PrecipitateBase.reset /
 GrainGrowthModel.reset do not touch couplingModels); oracle after every host step (observer on the host's postProcess): exactly
 one update and one new strength entry per attached StrengthModel, grain clock advanced by the host step for every attached
-GrainGrowthModel; update-call log vs the machine KawinV.Coupling.hrun with the reset operation (verb c18.hcouple)."""
+GrainGrowthModel; update-call log vs the machine KawinV.Coupling.hrun with the reset operation (verb c18.hcouple).
+(J) multi-phase superposition: hosts with 1-4 precipitate phases whose rows put the phases into DIFFERENT regimes (fine = cutting,
+coarse = weak branch the largest, absent = not yet nucleated, sub-core), default and other exponents; oracle on the implementation's
+outputs row by row: combined strength finite, >= the strongest phase, <= the plain sum, = (sum s_i^p)^(1/p) with ONE exponent per
+branch computed from the per-phase strengths and flags the model reports, one-phase host = that phase, non-decreasing in one phase
+(spacing of one phase changed, regime flags unchanged); rows vs KawinV.Strength.precRowWith (verb c18.precrow).
+(K) host histories with stopping conditions that are MET during a solve call on a real Al-Zr PrecipitateModel (density / volume
+fraction / nucleation rate / mean radius / a host-clock condition; or / and), several solve calls after the condition-ended one,
+oracle after EVERY host step including the step that ends a run and after every solve call; steps per call and update indices vs
+the machine KawinV.Coupling.solveCalls (verb c18.stopstep)."""
 import math, os, sys
 import numpy as np
 import vlib
@@ -36,7 +45,7 @@ from vlib import Result, enc_list, f2b, Toks, close
 
 PROP = 'C18'
 META = {
-    'level_text': 'Lean 4 theorems about (i) definitions REGENERATED on every run from Strength.py by a concolic tracer (mixed, edge and screw contribution formulas, Orowan, line tension) and (ii) hand models of the array logic of Strength.py and GrainGrowth.py: every clipped weak/strong/Orowan contribution is >= 0, the weak/strong sums, the combined precipitate strength, the multi-phase precipitate strength and the total strength are >= 0 (reals, rpow); precipitate strength = Taylor factor x min(weak, strong, Orowan) and 0 when a branch is non-finite (no precipitates); superposition (sum a_i^n)^(1/n) >= every a_j and non-decreasing in every a_i; the traced mixed-dislocation formulas reduce to the traced edge/screw formulas at 90/0 degrees (exact identities for modulus, APB-weak, SFE, interfacial; for the coherency and APB-strong formulas, whose published coefficients are rounded, the reduced form plus bounds on the coefficient ratio); Zener drag: sign in {0, sign g}, |cG| <= |g|, frozen when the drag >= max|g|; third moment = 1 after Normalize, mean size invariant under Normalize; transport with zero nucleation does not increase the number of grains (C07 budget + one-sided ends); one strength row per host step plus the initial row over any number of solve calls; grain-growth clock = host clock after every host step; the coupling list of a host as a state machine (attach = append, clear, host step = one updateCoupledModel call per list entry in list order): for every history of attach / clear / step operations every attached model is updated exactly once per host step since its attachment, at consecutive host indices (attached_updated_every_step), attaching keeps every attached model in place and does not change the update calls any other model receives (attach_mem, attach_prefix, attach_does_not_alter_others), cleared models are not updated, hence a StrengthModel attached at any time has (host steps since its attachment) + 1 rows (attached_history_length); witness: de-duplication by class detaches the first of two models of one class (dedup_detaches_first_of_same_class); histories WITH host.reset() (machine hrun: attach / clear / reset / step, host index rewound by reset, host steps counted over resets): reset keeps the coupling list (reset_keeps_attachments, attached_after_resets), a model attached once and not cleared by the user is updated exactly once at each host step after its attachment over any number of solve calls and resets (one_entry_per_step_over_histories, updates_count_over_histories), hence its strength history has steps + 1 entries (strength_history_over_histories) and the clock of an attached GrainGrowthModel is the sum of the host steps since its attachment (grain_clock_over_histories); witness reset_detaching_loses_updates for a reset that detaches; the grain-growth loaders and reset as operations (load = initial grid, raw distribution, Normalize, then backup; reset = restore backup, clock [0]; solve = any state): reset after anything after a load gives back exactly the loaded state (reset_restores_loaded), a loaded distribution and every later reset state have grain volume 1 (loaded_normalised, reset_normalised); witness backup_before_normalise_loses_volume / backupFirst_reset_restores_raw for a backup taken before Normalize. The generated definitions and the models are tied to the code by differential correspondence on every run, the predicates are evaluated on the real functions and on a real coupled Al-Zr run.',
+    'level_text': 'Lean 4 theorems about (i) definitions REGENERATED on every run from Strength.py by a concolic tracer (mixed, edge and screw contribution formulas, Orowan, line tension) and (ii) hand models of the array logic of Strength.py and GrainGrowth.py: every clipped weak/strong/Orowan contribution is >= 0, the weak/strong sums, the combined precipitate strength, the multi-phase precipitate strength and the total strength are >= 0 (reals, rpow); precipitate strength = Taylor factor x min(weak, strong, Orowan) and 0 when a branch is non-finite (no precipitates); superposition (sum a_i^n)^(1/n) >= every a_j and non-decreasing in every a_i; the traced mixed-dislocation formulas reduce to the traced edge/screw formulas at 90/0 degrees (exact identities for modulus, APB-weak, SFE, interfacial; for the coherency and APB-strong formulas, whose published coefficients are rounded, the reduced form plus bounds on the coefficient ratio); Zener drag: sign in {0, sign g}, |cG| <= |g|, frozen when the drag >= max|g|; third moment = 1 after Normalize, mean size invariant under Normalize; transport with zero nucleation does not increase the number of grains (C07 budget + one-sided ends); one strength row per host step plus the initial row over any number of solve calls; grain-growth clock = host clock after every host step; the coupling list of a host as a state machine (attach = append, clear, host step = one updateCoupledModel call per list entry in list order): for every history of attach / clear / step operations every attached model is updated exactly once per host step since its attachment, at consecutive host indices (attached_updated_every_step), attaching keeps every attached model in place and does not change the update calls any other model receives (attach_mem, attach_prefix, attach_does_not_alter_others), cleared models are not updated, hence a StrengthModel attached at any time has (host steps since its attachment) + 1 rows (attached_history_length); witness: de-duplication by class detaches the first of two models of one class (dedup_detaches_first_of_same_class); histories WITH host.reset() (machine hrun: attach / clear / reset / step, host index rewound by reset, host steps counted over resets): reset keeps the coupling list (reset_keeps_attachments, attached_after_resets), a model attached once and not cleared by the user is updated exactly once at each host step after its attachment over any number of solve calls and resets (one_entry_per_step_over_histories, updates_count_over_histories), hence its strength history has steps + 1 entries (strength_history_over_histories) and the clock of an attached GrainGrowthModel is the sum of the host steps since its attachment (grain_clock_over_histories); witness reset_detaching_loses_updates for a reset that detaches; the grain-growth loaders and reset as operations (load = initial grid, raw distribution, Normalize, then backup; reset = restore backup, clock [0]; solve = any state): reset after anything after a load gives back exactly the loaded state (reset_restores_loaded), a loaded distribution and every later reset state have grain volume 1 (loaded_normalised, reset_normalised); witness backup_before_normalise_loses_volume / backupFirst_reset_restores_raw for a backup taken before Normalize. Round 5: the multi-phase row of precStrength has ONE exponent for the power sum and the root in each branch (precRowWith_code, precRow_eq_superpose), is >= its strongest phase (superpose_ge_max, precRow_ge_max), <= the plain sum of the phases for exponents >= 1 (superpose_le_sum, precRow_le_sum), equals the phase for a one-phase host (superpose_singleton, precRow_one_phase) and is non-decreasing in every phase while the regime flags stay (superpose_mono_one, precRow_mono_same_flags); witnesses superposeWith_mismatch_below_strongest / precRowWith_mismatch_below_strongest for a root taken with another exponent than the sum. The host step postProcess = (record the row; update the coupled models; test the stopping conditions) inside the solver loop (machine solveCalls): for every stopping predicate and every sequence of solve calls updateCoupledModels ran at exactly the recorded host rows 1..n, the step that ends a run included (final_step_updates_coupled, updates_eq_rows), hence n + 1 strength entries (strength_history_with_stopping) and grain clock = sum of all host steps (grain_clock_with_stopping); a call on a host whose conditions are met is one recorded step (solveCall_stops); witness early_return_skips_final_update for a postProcess that tests first and returns early. The generated definitions and the models are tied to the code by differential correspondence on every run, the predicates are evaluated on the real functions and on a real coupled Al-Zr run.',
     'level_note': 'Monitored only (oracle, not proved): monotone mean grain size without pinning (needs third-moment conservation of the upwind scheme, only approximate); finiteness of IEEE results (the model treats np.isfinite as an arbitrary predicate; non-finite -> 0 is proved, that the real formulas are non-finite exactly for empty distributions is checked numerically); coherency-weak/strong and APB-strong edge/screw agreement is up to the rounding of the published coefficients (1e-5 / 1.5e-3 relative). The inner GrainGrowthModel.solve reaching exactly its end time is C05; here it is checked on the real run. Known finding gg-mean-size-dip-volume-drift: the mean grain size can dip by 1e-5..2e-4 relative in a step where grains leave through the last face of the grid (volume before Normalize < 1); the proved bound Rm_new^3 >= V_new * Rm_old^3 is checked by the oracle on every standalone step. Trusted: Lean kernel + Mathlib, axioms propext/Classical.choice/Quot.sound; the tracer tools/py2lean/sym.py (validated numerically on every run); hand models equal the NumPy code as far as this run compared them; exact-field arithmetic instead of IEEE doubles.',
     'technique': 'Lean 4 proof over generated definitions (py2lean) + hand models + differential correspondence + real coupled run',
     'design_ref': 'DESIGN.md section 6, C18',
@@ -47,6 +56,7 @@ MONITORED = [
     'IEEE finiteness: every contribution / strength returned by the real functions is finite',
     'coherency weak/strong and APB strong: mixed formula at 90/0 degrees equals the edge/screw formula up to the rounding of the published coefficients',
     'the inner grain-growth solve ends exactly at clock + host step (C05) — compared on the real coupled run',
+    'combined precipitate strength across a CHANGE of regime flags (the exponent switches between multiphaseSameExp and multiphaseMixedExp): monotonicity in a phase strength is proved and checked for unchanged flags only',
 ]
 ASSUMPTIONS = [
     'material parameters are positive and finite, Poisson ratio < 1, superposition exponents > 0, Taylor factor >= 0, base and solid-solution strength >= 0',
@@ -54,11 +64,14 @@ ASSUMPTIONS = [
     'grain size distributions are non-negative with at least one populated class (Normalize divides by the third moment); drag z >= 0',
     'attached = added with addCouplingModel and not removed by the USER with clearCouplingModels: host.reset() rewinds the results only and keeps the coupling list (read from the unchanged PrecipitateBase.reset / GrainGrowthModel.reset); a StrengthModel has no reset, so its history goes on over host resets (one new entry per host step); the clock of a coupled GrainGrowthModel counts the host time elapsed since its attachment or its own reset()',
     'a coupling model OBJECT is attached at most once at a time (addCouplingModel is a plain append: the same object attached twice is updated twice per host step - modelled with multiplicity in updatesOf_run, not generated by the oracle); a model attached after n host steps starts its own history there: rows = steps since attachment + 1, clock = host time elapsed since attachment',
+    'multi-phase superposition: exponents >= 1 for the upper bound by the plain sum (> 0 for everything else); the regime flag of a phase is what combineStrengthContributions reports (weak sum > strong sum and > Orowan), zeroed for a non-finite strength as precStrength does',
+    'stopping conditions: any and/or combination, modelled as an arbitrary predicate of the host row; (K) uses the shipped conditions and one user condition that polls the host clock (subclass of PrecipitationStoppingCondition overriding _poll)',
     'theorems are over exact ordered-field / real arithmetic; IEEE doubles compared with rtol 1e-9',
 ]
 TRUSTED = ['tools/py2lean/sym.py concolic tracer and emitter (every generated def is re-validated numerically on each run)',
            'np.power / np.amin / boolean-mask assignment / np.append semantics as modelled in KawinV.Strength and KawinV.Grain (compared on every run)',
            'parts (H), (I): the per-step observer is a wrapper set on the host INSTANCE around host.postProcess (GenericModel.solve hands self.postProcess to the solver); it also ends a solve call after 1-4 accepted steps by raising from there, like the step cap of kwnruns.run; in (H) the raw distribution handed to the model is computed by the harness (np.histogram on the initial grid / the function on the initial class centres)',
+           'part (J): precStrength is called with a stand-in host that carries only `phases` and with the history arrays rss / ls set directly (what updateCoupledModel records and save/load store); part (K): the per-step observer is the same instance-level wrapper around host.postProcess as in (I) (it records the stop flag postProcess returns and caps a call at 40-60 steps)',
            'part (G): the stand-in host is a subclass of the real GenericModel (its coupling-list methods are the code under test) that carries only the attributes the coupling models read (phases, elements, PBM[p].PSD/PSDsize, pData.n/time/composition/Ravg/volFrac, setTimeInfo); the per-model call log comes from wrappers set on the model instances']
 
 GEN_FILE = os.path.join(vlib.LEAN, 'KawinV', 'Gen', 'C18Strength.lean')
@@ -1997,6 +2010,8 @@ def corr(ctx, oracle_only=False, scale=1, skip_run=False):
                 '(G) coupling-list histories: 2-6 models (2-3 of one class: StrengthModel / GrainGrowthModel / recorder) x 1-3 solve calls x attach slots (before the first solve, between solves) x clear + re-attach, on a stand-in host with the real list and on a real GrainGrowthModel host; non-trivial = at least one host step with two models of one class attached. '
                 '(H) grain-growth histories: 4-9 operations from LoadDistribution(random log-normal sample of 300..50000 sizes, some outside the grid) / LoadDistributionFunction(log-normal x amplitude 1e-3..1e20) / reset / solve(0.02-0.2 of the growth time scale, Euler or RK4) / coupled host step (every third history: the model attached to a stand-in host with the real coupling list), oracle after every operation; non-trivial = a load followed later by a reset. '
                 '(I) host histories: 6-11+ operations from addCouplingModel / clearCouplingModels / host.reset() (sometimes followed by setPBMParameters) / reset() of a coupled GrainGrowthModel / host.solve (1-4 accepted steps per call on the Al-Zr PrecipitateModel, up to the natural end on the GrainGrowthModel host), at least two solve calls and one host reset, random order; 2-4 models (StrengthModel, GrainGrowthModel loaded from data or function, recorders); non-trivial = at least one host step with a model attached BEFORE a host.reset(). '
+                '(J) multi-phase superposition: 1-4 phases x global / phase-specific mechanisms (at least one per phase) x default exponents (1.8 / 1.4) or random ones in [1, 3] x 4-9 rows, each row a pattern of per-phase regimes (mixed = at least one fine (0.3-2.5 nm) and one coarse (10-200 nm) phase, mixed with an absent phase, all fine, all coarse, one phase present, any incl. sub-core), spacing from a volume fraction 10^-3.5..10^-1.5; non-trivial = a row in the mixed-regime branch (flags as reported by the implementation). '
+                '(K) stop histories on an Al-Zr PrecipitateModel (30 size classes, 823 K) with 2-3 coupling models (StrengthModel, GrainGrowthModel, recorder; one sometimes attached between the calls) and 1-2 stopping conditions with thresholds the run crosses within ~35 steps (density, volume fraction, nucleation rate, mean radius, host clock; or / two in and mode): [short call ended by time] + long call (ended by the condition) + 1-3 further calls + sometimes clearStoppingConditions and a call ended by time; non-trivial = a call ended by a condition followed by at least one more call. '
                 'non-trivial = at least one enabled contribution and one entry with precipitates (B,C) / populated distribution (D,E); distinct = full case tuple. '
                 'Every case runs in its own guard: an exception raised by the code under test is a violation raises:<call site>:<type> with the case, the run goes on')
     res.monitored = list(MONITORED)
@@ -2158,7 +2173,7 @@ def corr(ctx, oracle_only=False, scale=1, skip_run=False):
                    ('hcouple', {'part': 'I', **a, 'ops': ' '.join(h['ops'])}, h['ids'], h['n'], h['g'], h['log']))])
 
     # ---------------- (J) multi-phase superposition: 1-4 phases in different regimes at the same history entry
-    for it in range(ctx.n(120, 6000) * scale):
+    for it in range(ctx.n(120, 4000) * scale):
         a = gen_super_case(rng)
         case = {'chk': 'super', 'args': a}
         ok, val = vlib.guarded(res, 'multi-phase-superposition', case, chk_super, a, True)
